@@ -235,7 +235,7 @@ def check_cancel_with_flag(vc, clause, evs):
          clauses=['flag_first', 'stage_table', 'stage_progress', 'cancel_with_flag', 'delays',
                   'delays_nonempty_while_alive', 'returns_collected', 'crash_free',
                   'one.flag_first', 'one.stage_order', 'one.cancel_with_flag', 'one.progress',
-                  'one.ends_done_or_abandoned'],
+                  'one.ends_done_or_abandoned', 'one.chance_before_abandon'],
          canaries=['canary.never_cancels', 'canary.never_abandons', 'canary.always_delays', 'canary.one.never_abandons'],
          trusted=['daemons._wait_for_instant_exit: only waits (a suspension point), changes nothing itself',
                   'aiotasks.wait(tasks, timeout=T): returns after a suspension once all tasks are done or T has elapsed',
@@ -269,7 +269,11 @@ def D2(vc):
       one.stage_order SIGNALLED only with B set; cancel only with T set, on a running task, not earlier than B
                       after the flag; ABANDONED only on a running task and not earlier than T after the cancel;
       one.progress    a task still running at the end was signalled (if B) and cancelled (if T);
-      one.ends_done_or_abandoned  on return the task is done or flagged DAEMON_ABANDONED (never stalls).
+      one.ends_done_or_abandoned  on return the task is done or flagged DAEMON_ABANDONED (never stalls);
+      one.chance_before_abandon   "stop flag first ... abandonment after the timeout": between raising the reason flag
+                      and giving the daemon up (DAEMON_ABANDONED, ResourceWarning) the stopper yields to the event loop
+                      at least once (instant-exit wait, backoff or timeout wait) -- also for timers and daemons
+                      without backoff/timeout; otherwise even an instance that obeys the flag at once is abandoned.
     """
     if vc.nondet(2, 'stop_daemons | stop_daemon') == 0:
         return _d2_many(vc)
@@ -517,6 +521,10 @@ def _d2_one(vc):
                                                        T is None or st.is_set(SR.DAEMON_CANCELLED))))
     vc.ensure('one.progress', Implies(running_end, T is None or any(e[0] == 'task.cancel' for e in effects)))
     vc.ensure('one.ends_done_or_abandoned', Or(task.state, st.is_set(SR.DAEMON_ABANDONED)))
+    # -- one.chance_before_abandon: the daemon task can only run (and obey the flag) while the stopper is suspended
+    for i, e in enumerate(tr):
+        if e[0] == 'stopper.set' and e[2] is SR.DAEMON_ABANDONED:
+            vc.ensure('one.chance_before_abandon', any(x[0] == 'suspend' for x in tr[1:i]))
     vc.canary('canary.one.never_abandons', not any(e[0] == 'stopper.set' and e[2] is SR.DAEMON_ABANDONED for e in effects))
     return ('one', len(effects))
 
@@ -556,6 +564,31 @@ class RegDict(LiveDict):
         self.present, self.value = False, None
 
 
+class RunnerDict(RegDict):
+    """running_daemons as the ending runner sees it: its own record under its own id plus a concrete tuple of
+    records of the object's other daemons/timers (before / after it, in dict order).  No suspension point lies
+    between the end of the wrapped call and the end of the runner (D1.removal_last), so walking it is safe."""
+    def __init__(self, vc, name, key, value, before=(), after=()):
+        super().__init__(vc, name, key, True, value)
+        self.before, self.after = list(before), list(after)
+
+    def _content(self):
+        mine = [(self.key, self.value)] if self.present else []
+        return self.before + mine + self.after
+
+    def values(self): return [v for _, v in self._content()]
+    def items(self): return list(self._content())
+    def keys(self): return [k for k, _ in self._content()]
+    def __iter__(self): return iter(self.keys())
+    def __len__(self): return len(self._content())
+    def __bool__(self): return bool(self._content())
+    def copy(self): return dict(self._content())
+
+    def get(self, k, default=None):
+        self._mine(k)
+        return self.value if self.present else default
+
+
 class TracedSet(set):
     def __init__(self, vc, items=()):
         super().__init__(items)
@@ -580,14 +613,17 @@ class TracedMemory:
 
 @harness('D1', targets=['kopf._core.engines.daemons.spawn_daemons', 'kopf._core.engines.daemons._runner'], props=['C09', 'C10', 'C13'],
          clauses=['spawn_only_absent', 'atomic_register', 'runner_wired', 'frame',
-                  'wraps_by_kind', 'forever_stopped_iff_self_exit', 'removal_last', 'done_flag', 'propagates'],
+                  'wraps_by_kind', 'forever_stopped_iff_self_exit', 'removal_last', 'done_flag', 'propagates',
+                  'live_body_kept_while_shared'],
          canaries=['canary.always_spawns', 'canary.never_forever_stopped'],
          trusted=['asyncio.create_task(coro): returns a new task, does not run the coroutine before the next suspension of the caller',
                   'daemons._daemon / daemons._timer (D4-D6): suspend; return, raise any exception or are cancelled',
                   'aioenums.FlagSetter by contract (SymStopper); loggers.LocalObjectLogger: no effect'],
          assumes=['spawn_daemons: memory.live_fresh_body is not None (H7.body_before_spawn)',
                   '_runner: daemons[handler.id] is the runner\'s own record when it starts (D1.atomic_register) and nobody else '
-                  'deletes it (only _runner deletes entries); handler is a DaemonHandler or a TimerHandler'])
+                  'deletes it (only _runner deletes entries); handler is a DaemonHandler or a TimerHandler; `daemons` is '
+                  'memory.running_daemons (processing.process_spawning_cause, H7); the other entries of that dict are drawn '
+                  'over a universe of 0..2 records of other handlers in every position relative to the own record'])
 def D1(vc):
     """
     At most one instance per (object, handler): running_daemons[id] exists exactly while a runner of id is alive.
@@ -608,7 +644,14 @@ def D1(vc):
                          (forever_stopped bookkeeping, deletion, DONE flag) is one atomic segment that ends the runner:
                          no suspension point after the wrapped call (nobody sees the entry gone while the runner lives,
                          or a self-exited daemon missing in forever_stopped);
-      done_flag          the stopper carries DONE at the end;  propagates: exceptions/cancellation are not swallowed.
+      done_flag          the stopper carries DONE at the end;  propagates: exceptions/cancellation are not swallowed;
+      live_body_kept_while_shared  memory.live_fresh_body is THE body object every running daemon/timer of the object was
+                         given (D1.runner_wired) and the only one processing.process_resource_event refreshes in place
+                         (docs/daemons.rst: kwargs are "live views" of the current state): while another daemon/timer of
+                         the object is still registered the ending runner leaves it alone (dropping it would freeze the
+                         others' view for good: the next cycle installs a new body object); and the runner never
+                         installs a body of its own -- at most it drops the reference.  (Whether it is dropped when
+                         nobody else is registered is a memory optimisation and is not constrained.)
     """
     if vc.nondet(2, 'spawn_daemons | _runner') == 0:
         return _d1_spawn(vc)
@@ -713,11 +756,14 @@ def _d1_runner(vc):
                    patch=Opaque('patch'), memo=Opaque('memo'), indices=Opaque('indices'))
     task = SymTask(vc, clock, 'own-task', done=False)
     me = daemons.Daemon(task=task, logger=NullLogger(), handler=h, stopper=stopper)
-    other = Opaque('another-daemon')
-    running = RegDict(vc, 'running_daemons', key='d', present=True, value=me)
+    n_others = vc.nondet(3, 'other daemons/timers of the object still registered: none / one / two')
+    n_before = vc.nondet(n_others + 1, 'how many of them precede the own record in the dict') if n_others else 0
+    others = [(f'other-{i}', Opaque(f'another-daemon-{i}')) for i in range(n_others)]
+    running = RunnerDict(vc, 'running_daemons', key='d', value=me, before=others[:n_before], after=others[n_before:])
     had = vc.nondet(2, 'id already in forever_stopped?') == 1
     forever = TracedSet(vc, {'other'} | ({'d'} if had else set()))
-    memory = TracedMemory(vc, live_fresh_body=Opaque('live-body'), forever_stopped=forever, running_daemons=running,
+    live0 = Opaque('live-body')
+    memory = TracedMemory(vc, live_fresh_body=live0, forever_stopped=forever, running_daemons=running,
                           idle_reset_time=clock.now)
     kinds = ['return', 'cancelled', 'error']
 
@@ -739,21 +785,12 @@ def _d1_runner(vc):
         stopper.havoc()
         vc.emit('suspend', site)
 
-    def element(loc, iterable):
-        mode = iteration_mode(iterable, running)
-        if mode is None or mode[1] != 'values':
-            raise Unsupported(f'_runner walks something else than memory.running_daemons: {iterable!r}')
-        return [_STOP, me, other][vc.nondet(3, 'exhausted / own record / another daemon')]
-
-    def havoc(loc):
-        return {k: vc.bool('can-free') for k, v in loc.items() if v is True and not k.startswith('__')}
-
     async def sleep(*a, **kw):
         await suspend('asyncio.sleep')
 
+    # no loop contract: the dict content is concrete (RunnerDict), the walk over it runs natively
     ld = vc.load('kopf._core.engines.daemons', '_runner',
-                 stubs={'_daemon': guarded('_daemon'), '_timer': guarded('_timer'), 'asyncio.sleep': sleep},
-                 loops={1: LoopSpec('for running_daemon in', havoc=havoc, element=element)})
+                 stubs={'_daemon': guarded('_daemon'), '_timer': guarded('_timer'), 'asyncio.sleep': sleep})
     escaped = None
     try:
         vc.drive(ld.fn(settings=settings, daemons=running, handler=h, memory=memory, cause=cause), on_suspend)
@@ -786,7 +823,12 @@ def _d1_runner(vc):
     if 'guarded.end' in names:      # from the end of the wrapped call to the end of the runner: one atomic segment
         vc.ensure('removal_last', 'suspend' not in names[names.index('guarded.end'):])
     vc.ensure('done_flag', stopper.is_set(SR.DONE))
-    return ('runner', g.outcome, 'd' in forever)
+    # -- the live body shared with the object's other daemons/timers
+    body_writes = [e for e in tr if e[0] == 'memory.write' and e[1] == 'live_fresh_body']
+    vc.ensure('live_body_kept_while_shared', n_others == 0 or (not body_writes and memory.live_fresh_body is live0))
+    vc.ensure('live_body_kept_while_shared', all(e[2] is None for e in body_writes))
+    vc.ensure('live_body_kept_while_shared', running.before + running.after == others)
+    return ('runner', g.outcome, 'd' in forever, n_others)
 
 
 # =============================================================================================== D3
@@ -796,16 +838,18 @@ def _d1_runner(vc):
                   'pause.iff_paused', 'pause.reason_all', 'pause.delays',
                   'killer.pause_stops_all', 'killer.pause_only_when_paused', 'killer.pause_rounds_while_on',
                   'killer.exit_stops_all',
-                  'killer.waits_before_close', 'killer.crash_free'],
+                  'killer.waits_before_close', 'killer.crash_free', 'killer.no_spin'],
          canaries=['canary.match.stops_all', 'canary.pause.always_stops', 'canary.killer.never_closes'],
          trusted=['daemons.stop_daemons / stop_daemon by contract D2 (here: recorded, suspend, arbitrary delays)',
                   'aiotasks.Scheduler: spawn(coro) takes ownership of the coroutine and suspends; wait() returns when all '
                   'spawned coroutines have finished; close() cancels the rest',
                   'aiotoggles.ToggleSet: is_on() reads the shared pause state; wait_for(s) returns when the state is s',
-                  'asyncio.timeout(t): turns the cancellation it injects after t seconds into TimeoutError'],
+                  'asyncio.timeout(t): turns the cancellation it injects after t seconds into TimeoutError; exists from Python 3.11 on'],
          assumes=['match_daemons: handler ids are hashable constants; the mapping is drawn over a universe of 3 ids with every '
                   'combination of "currently matching" x "running" (the set/dict comprehensions cannot be cut by a loop contract)',
-                  'daemon_killer: the task is cancelled once (operator exit); no second cancellation while its finally block runs'])
+                  'daemon_killer: the task is cancelled once (operator exit); no second cancellation while its finally block runs; '
+                  'sys.version_info is drawn from {3.10, the running interpreter} (both sides of the version switch; '
+                  'asyncio.timeout is a stub, so the 3.11+ branch needs no real one)'])
 def D3(vc):
     """
     Who gets stopped, and why.
@@ -823,7 +867,14 @@ def D3(vc):
       killer.crash_free         dicts shared with other tasks (memories, running_daemons) are not walked as live
                     views across a suspension point: runners delete their entries (and deleted objects are forgotten)
                     whenever the killer is suspended, and the next step of a live view then raises RuntimeError --
-                    the killer dies and the remaining daemons are never asked to stop.
+                    the killer dies and the remaining daemons are never asked to stop; and the killer (an endless
+                    root task) ends by cancellation only, on every supported interpreter;
+      killer.no_spin            "stopping never stalls the operator": every turn of the killer's two endless loops (one
+                    wait-for-pause cycle; one stopping round while paused) yields to the event loop at least once -- it
+                    blocks on the pause toggle (or on the scheduler) -- so the killer never busy-loops, neither while the
+                    operator runs normally nor while it stays paused (a loop turn without any suspension changes nothing
+                    it could observe, repeats forever and starves every other task).  The shared pause state changes
+                    only at suspension points (loop summaries: "no suspension so far => state unchanged").
     """
     k = vc.nondet(3, 'match_daemons | pause_daemons | daemon_killer')
     if k == 0:
@@ -909,8 +960,10 @@ class _TimeoutFired(asyncio.CancelledError):
 
 def _d3_killer(vc):
     g = Ghost(susp=0, thrown=False, paused=vc.bool('paused0'), in_timeout=0, mem=None, memit=None, dit=None,
-              calls={})
+              calls={}, soft=[], cycle_mark=(0, 0), round_mark=(0, 0))
     clock = Clock()
+    import sys as _sys
+    version_info = [(3, 10, 14, 'final', 0), tuple(_sys.version_info)][vc.nondet(2, 'python 3.10 | the running interpreter')]
     settings = Opaque('settings')
     memdict = LiveDict('memories')
     memories = Opaque('memories')
@@ -977,6 +1030,11 @@ def _d3_killer(vc):
             vc.emit('sched.close')
             await susp('scheduler.close')
 
+    def timeout(delay):
+        if version_info < (3, 11):      # asyncio.timeout() is new in Python 3.11
+            raise AttributeError("module 'asyncio' has no attribute 'timeout'")
+        return Timeout(delay)
+
     def stop_daemon(**kw):
         return Ghost(kw=kw)
 
@@ -1000,7 +1058,7 @@ def _d3_killer(vc):
             if n == 3:
                 crash_free(g.memit)
             return True
-        return LoopSpec('for memory in', invariant=invariant, havoc=havoc_shared, element=element, name=anchor)
+        return LoopSpec('for memory in', invariant=invariant, havoc=summary(anchor), element=element, name=anchor)
 
     def daemon_loop(anchor, reason, clause):
         def havoc(loc):
@@ -1037,6 +1095,28 @@ def _d3_killer(vc):
         g.paused = vc.bool('paused')
         return {}
 
+    def summary(anchor, mark=None, earlier=True):
+        """loop-head summary of the earlier turns: either none of them has suspended so far (no other task ran: the
+        shared pause state is as it was), or some did (a ghost suspension `s` is noted, the pause toggle is arbitrary).
+        `mark`: the turn that starts here is the one `no_spin(mark)` speaks about."""
+        def havoc(loc):
+            if earlier:
+                s = vc.bool(f'{anchor}: some earlier turn suspended')
+                g.paused = If(s, vc.bool('paused'), g.paused)
+                g.soft.append(s)
+            if mark is not None:
+                setattr(g, mark, (g.susp, len(g.soft)))
+            return {}
+        return havoc
+
+    def no_spin(mark):
+        def at_backedge(loc):
+            hard, soft = getattr(g, mark)
+            vc.ensure('killer.no_spin', Or(g.susp > hard, *g.soft[soft:]))
+        return at_backedge
+
+    mark_cycle = summary('wait-for-pause cycles', 'cycle_mark', earlier=False)
+
     def outer_invariant(loc):
         # back edge of the outer loop: the stopping rounds were left -- only with the toggle observed off
         n = g.calls['outer'] = g.calls.get('outer', 0) + 1
@@ -1046,10 +1126,13 @@ def _d3_killer(vc):
         return True
 
     ld = vc.load('kopf._core.engines.daemons', 'daemon_killer', stubs={
-        'aiotasks.Scheduler': Scheduler, 'stop_daemon': stop_daemon, 'asyncio.timeout': Timeout,
+        'aiotasks.Scheduler': Scheduler, 'stop_daemon': stop_daemon, 'asyncio.timeout': timeout,
+        'sys.version_info': version_info,
     }, loops={
-        1: LoopSpec('while True', invariant=outer_invariant, havoc=havoc_shared),
-        2: LoopSpec('operator_paused.is_on()', havoc=havoc_shared),
+        1: LoopSpec('while True', invariant=outer_invariant, havoc=lambda loc: (havoc_shared(), mark_cycle(loc))[1],
+                    at_backedge=no_spin('cycle_mark')),
+        2: LoopSpec('operator_paused.is_on()', havoc=summary('stopping rounds', 'round_mark'),
+                    at_backedge=no_spin('round_mark')),
         3: mem_loop('pausing: for memory'),
         4: daemon_loop('pausing: for daemon', SR.OPERATOR_PAUSING, 'killer.pause_stops_all'),
         5: mem_loop('exiting: for memory'),
@@ -1058,8 +1141,12 @@ def _d3_killer(vc):
     escaped = None
     try:
         vc.drive(ld.fn(settings=settings, memories=memories, operator_paused=Toggle()), lambda site: None)
-    except asyncio.CancelledError as e:
+    except BaseException as e:
+        if isinstance(e, (PathEnd, Unsupported)):
+            raise
         escaped = e
+    # the killer is an endless root task: it ends by cancellation only (any other exception takes the operator down)
+    vc.ensure('killer.crash_free', isinstance(escaped, asyncio.CancelledError))
     # Only the paths that leave the finally block normally arrive here (the others end at a back edge).
     tr = vc.trace
     names = [e[0] for e in tr]
